@@ -74,16 +74,18 @@ def run_tlc(scratch, module, cfg, env=None, workers=None, heap="6g", timeout=900
     return res
 
 
-def replay(scratch, drive, target, edges, names="a,b", nshard=None, timeout=900):
-    """Replays an edge file on one target in nshard parallel driver processes.
+def replay(scratch, drive, target, edges, names="a,b", nshard=None, timeout=1800):
+    """Replays an edge file on one target. The in-memory targets run in ONE driver process with a pool of
+    goroutines (the alternative outcomes of the deviation catalogue are indexed once); the kernel target
+    changes process-wide state and runs as parallel processes, each taking every n-th line.
     Returns (stats dict, list of non-conforming EdgeResult dicts)."""
-    nshard = nshard or NCPU
+    nshard = (nshard or NCPU) if target == "osfs" else 1
     procs = []
     for k in range(nshard):
         out = scratch.path("res-%s-%s-%d.ndjson" % (os.path.basename(edges), target, k))
         env = dict(os.environ, VERIF_JAILBASE=scratch.path("jails"))
         p = subprocess.Popen([drive, "replay", "-target", target, "-edges", edges, "-out", out,
-                              "-shard", str(k), "-nshard", str(nshard), "-names", names],
+                              "-shard", str(k), "-nshard", str(nshard), "-names", names, "-workers", str(NCPU)],
                              stdout=subprocess.PIPE, stderr=subprocess.PIPE, text=True, env=env)
         procs.append((p, out))
     stats = {"Edges": 0, "OK": 0, "Mismatch": 0, "Unreach": 0, "Skipped": 0, "Built": 0, "Explained": 0, "Corrupt": 0, "Kf": {}}
@@ -108,7 +110,7 @@ def replay(scratch, drive, target, edges, names="a,b", nshard=None, timeout=900)
         with open(out) as f:
             for line in f:
                 bad.append(json.loads(line))
-    stats["Corrupt"] //= max(1, nshard)      # every shard reads (and counts) the whole file
+    stats["Corrupt"] //= max(1, nshard)      # every process reads (and counts) the whole file
     if stats["Corrupt"] * 200 > max(1, stats["Edges"]):
         raise Infra("%d of the lines TLC emitted are damaged (concurrent appends of long lines)" % stats["Corrupt"])
     return stats, bad
